@@ -658,6 +658,8 @@ def c14(ctx):
             nseq += 1
     cmds.append("ramode 0")
     for m in cfgev["E"]:
+        for nrb in ("-1", "-2147483648", "0", "1"):       # every early exit of crypt_gensalt_ra frees what it allocated
+            cmds.append("gensalt_ra %s 0 %s %s" % (hx(gen.PREFIX[m]) if gen.PREFIX[m] else "=", bytes(rng.randrange(256) for _ in range(16)).hex(), nrb))
         for cnt, pfx in ((0, gen.PREFIX[m]), (0, "$9$"), (99, gen.PREFIX[m])):
             cmds.append("gensalt_ra %s %d - 0" % (hx(pfx) if pfx else "=", cnt))
             cmds.append("gensalt_ra %s %d %s len" % (hx(pfx) if pfx else "=", cnt, bytes(rng.randrange(256) for _ in range(2)).hex()))
@@ -1487,6 +1489,8 @@ def cost_respellings(m, s):
     """other spellings of the decimal cost field that denote a different (out-of-range) cost: a parser that wraps
     or truncates hashes them like the base setting, i.e. two different cost fields, one hash part"""
     out = []
+    if m in ("sha512crypt", "sha256crypt") and "rounds=1000$" in s:
+        out += [s.replace("rounds=1000$", "rounds=%s$" % r) for r in ("999", "1", "500", "0999")]     # below the minimum: refused, not clamped
     for k in (2 ** 32, 2 ** 33, 2 ** 64):
         if m in ("sha512crypt", "sha256crypt") and "rounds=1000$" in s:
             out.append(s.replace("rounds=1000$", "rounds=%d$" % (1000 + k)))
@@ -1536,8 +1540,10 @@ def c03(ctx):
                       "md5crypt": ["$1$"], "bsdicrypt": ["_/..." + gen.salt(rng, 4)]}.get(m, [])
         for s0 in [s_main] + degenerate:
             lens = (9, 32, 64, 73, 130, 511) if quick else (1, 7, 8, 9, 16, 31, 32, 33, 55, 56, 63, 64, 65, 72, 73, 127, 128, 129, 200, 256, 257, 511)
-            if m in ("scrypt", "yescrypt", "gost_yescrypt", "bcrypt", "bcrypt_a", "bcrypt_x", "bcrypt_y") and quick:
+            if m in ("scrypt", "yescrypt", "gost_yescrypt") and quick:
                 lens = (9, 73, 511)
+            if m in ("bcrypt", "bcrypt_a", "bcrypt_x", "bcrypt_y") and quick:
+                lens = (9, 73, 257, 300)          # (beyond 255: a key length kept in a byte wraps)
             if s0 is not s_main:
                 lens = (9, 73) if quick else (8, 9, 64, 73, 200)
             for n in lens:
@@ -2113,6 +2119,9 @@ def c17(ctx):
         cmds.append("des %s %d %d %s 0" % (rb(8).hex(), rng.randrange(1 << 24), cnt, "0000000000000000"))
     # one context keyed twice, starting from junk: degenerate second keys (all zero, parity bits only, all ones) and
     # salt 0 must fully replace what the first key and salt left behind
+    for k in (bytes.fromhex(h) for h in ("fefefefefefefefe", "1f1f1f1f0e0e0e0e", "e0e0e0e0f1f1f1f1", "01fe01fe01fe01fe", "e0fee0fef1fef1fe", "1e1e1e1e0f0f0f0f")):
+        cmds.append("des %s 0 1 %s 0" % (k.hex(), rb(8).hex()))
+        cmds.append("des %s 0 1 %s 1" % (k.hex(), rb(8).hex()))
     zero, par, ones = bytes(8), bytes([1] * 8), bytes([0xff] * 8)
     for k2 in (zero, par, ones, bytes([0x80] * 8), zero, rb(8), rb(8)):
         for s in (0, 0, 1, 0xffffff, rng.randrange(1 << 24)):
@@ -2120,8 +2129,14 @@ def c17(ctx):
     ev1 = run_prim(ctx, cmds)
     # the obsolete API: low bit only, 0/1 results, _r vs static, interleaved with crypt calls
     x = ["obj 0 0 0", "obj 1 5 0"]
-    for i in range(120 if quick else 1500):
-        k, b = rb(8), rb(8)
+    # DES's weak and semi-weak keys (all round keys equal / two alternating): legal keys like any other, with every parity spelling
+    special = [bytes.fromhex(h) for h in ("0101010101010101", "fefefefefefefefe", "1f1f1f1f0e0e0e0e", "e0e0e0e0f1f1f1f1", "ffffffffffffffff", "0000000000000000",
+                                          "1e1e1e1e0f0f0f0f", "e1e1e1e1f0f0f0f0", "01fe01fe01fe01fe", "fe01fe01fe01fe01", "1fe01fe00ef10ef1", "e01fe01ff10ef10e",
+                                          "01e001e001f101f1", "e001e001f101f101", "1ffe1ffe0efe0efe", "fe1ffe1ffe0efe0e", "011f011f010e010e", "1f011f010e010e01",
+                                          "e0fee0fef1fef1fe", "fee0fee0fef1fef1")]
+    nspecial = len(special)
+    for i in range((120 if quick else 1500) + nspecial):
+        k, b = (special[i] if i < nspecial else rb(8)), rb(8)
         noise = rng.choice((0, 0, 3, 17))
         r_ = rng.random()
         if r_ < 0.45:
